@@ -331,6 +331,9 @@ type KV struct {
 	// KV Store.
 	storeMu sync.RWMutex
 	store   map[string]ValueDesc
+	// Last version given to a stored value, protected by storeMu. Versions come from one counter for the whole
+	// store, so that a key never gets the same version twice, not even after it was deleted and removed.
+	lastVersion uint
 
 	// Codec registry
 	codecs map[string]codec.Codec
@@ -1893,7 +1896,10 @@ func (m *KV) mergeValueForKey(key string, incomingValue Mergeable, incomingValue
 		change = result
 	}
 
-	newVersion = curr.Version + 1
+	// Not curr.Version + 1: once a deleted key has been removed from the store its versions would start again,
+	// and a CAS that read the key before the removal could find "its" version on a different value.
+	m.lastVersion++
+	newVersion = m.lastVersion
 	m.store[key] = ValueDesc{
 		value:      result,
 		Version:    newVersion,
